@@ -402,13 +402,6 @@ func scriptsFromRanges(ranges [][2]rune) ScriptSet {
 			indexS++
 		}
 
-		if indexS >= LR {
-			// the incomming ranges are higher than known scripts :
-			// add Unknown and break early
-			out.insert(language.Unknown)
-			break
-		}
-
 		// loop through the 'interesting' items,
 		// that is the ones with item.Start <= end
 		for indexS < LR {
@@ -445,9 +438,9 @@ func scriptsFromRanges(ranges [][2]rune) ScriptSet {
 			indexS++
 		}
 
-		if indexS >= LR {
-			// the incomming ranges are higher than known scripts :
-			// add Unknown and break early
+		if indexS >= LR && end > language.ScriptRanges[LR-1].End {
+			// all the known scripts have been seen and the range
+			// goes past the last one : add Unknown and break early
 			out.insert(language.Unknown)
 			break
 		}
